@@ -1,6 +1,16 @@
-(* PooledEq.v -- the pooled decision diagram (pooled.rs) IS the frontier-cut-set clean diagram (clean.rs, FRONTIER)
-   as soon as every state is impacted by every variable (no long arcs).  See the summary at the end of the file. *)
+(* PooledEq.v -- the pooled decision diagram (pooled.rs, flavour Pooled of Mdd.v) is observationally the clean diagram
+   with a frontier cut-set (clean.rs, flavour CleanFC) as soon as every state is impacted by every variable (no long
+   arcs); transfer of the diagram-level and solver-level theorems of the development to the pooled flavour.
+
+   Main statements (details, findings and method: summary at the END of this file):
+     pooled_is_frontier_core / pooled_is_frontier / pooled_is_frontier_nocache   compile, Pooled vs to_fc
+     maximize_pooled_eq, par_maximize_pooled_eq                                   the solvers, Pooled vs cfg_fc
+     S1.._S4_.._pooled, C07_.._pooled, C01_sequential_optimal_pooled, C03_parallel_optimal_pooled
+     dead_end_finding (the one observable difference), kp_* / kq_* (non-vacuity, vm_compute).
+   Stdlib only, no axioms (Print Assumptions at the end). *)
 Require Import DDO.Base DDO.Fringe DDO.DP DDO.Cache DDO.Dom DDO.Mdd DDO.MddStruct DDO.MddExact.
+Require Import DDO.FringeProofs DDO.Fringe2.
+Require DDO.Par DDO.ParProofs.
 Require Import DDO.Solver DDO.SolverProofs DDO.MddProgress DDO.MddSim DDO.Assembly DDO.Diagram DDO.MddStruct2.
 From Coq Require Import Lia List Arith ZArith Bool.
 Import ListNotations.
@@ -18,6 +28,9 @@ Section Obs.
     oc_polls : m_polls (fst rp) = m_polls (fst rc);
     oc_dom : m_dom (fst rp) = m_dom (fst rc);
     oc_cands : argmax_candidates ip (fst rp) (m_next (fst rp)) = argmax_candidates ic (fst rc) (m_next (fst rc));
+    oc_cands_exact :
+      argmax_candidates ip (fst rp) (filter (fun id => fl_is_exact (n_flags (get_node ip (fst rp) id))) (m_next (fst rp))) =
+      argmax_candidates ic (fst rc) (filter (fun id => fl_is_exact (n_flags (get_node ic (fst rc) id))) (m_next (fst rc)));
     oc_is_exact : snd rc = Compiled -> dd_is_exact (fst rp) = dd_is_exact (fst rc);
     oc_best_value : snd rc = Compiled -> dd_best_value ip (fst rp) = dd_best_value ic (fst rc);
     oc_best_exact_value : snd rc = Compiled -> dd_best_exact_value ip (fst rp) = dd_best_exact_value ic (fst rc);
@@ -1847,6 +1860,7 @@ Section Sim.
       + congruence.
       + congruence.
       + rewrite P7, C7, B3. reflexivity.
+      + rewrite P7, C7, B3. reflexivity.
       + unfold dd_is_exact. congruence.
       + unfold dd_best_value. rewrite P1, C1, B1. reflexivity.
       + unfold dd_best_exact_value. rewrite P2, C2, B2. reflexivity.
@@ -1997,11 +2011,961 @@ Section Main.
     m_crash (fst (compile st_eqb inp tb tb2 c ds polls)) = m_crash (fst (compile st_eqb (to_fc inp) tb tb2 c ds polls)) /\
     m_cache (fst (compile st_eqb inp tb tb2 c ds polls)) = m_cache (fst (compile st_eqb (to_fc inp) tb tb2 c ds polls)).
   Proof. destruct (pooled_is_frontier_gen st_eqb st_eqb_spec inp Hpooled Himp Hwidth tb tb2 c ds polls) as (A & B & C). exact C. Qed.
+
+  (* sufficient conditions for (ii) *)
+  Corollary pooled_is_frontier_not_relaxed tb tb2 c ds polls :
+    ci_type inp = Restricted \/ ci_type inp = Exact ->
+    obs_eq inp (to_fc inp) (compile st_eqb inp tb tb2 c ds polls) (compile st_eqb (to_fc inp) tb tb2 c ds polls).
+  Proof.
+    intros Ht. apply pooled_is_frontier. unfold dead_end_diff. change (ci_type (to_fc inp)) with (ci_type inp).
+    destruct Ht as [Ht|Ht]; rewrite Ht; reflexivity.
+  Qed.
+  Corollary pooled_is_frontier_live tb tb2 c ds polls :
+    m_next (fst (compile st_eqb (to_fc inp) tb tb2 c ds polls)) <> [] ->
+    obs_eq inp (to_fc inp) (compile st_eqb inp tb tb2 c ds polls) (compile st_eqb (to_fc inp) tb tb2 c ds polls).
+  Proof.
+    intros Hn. apply pooled_is_frontier. unfold dead_end_diff, bottom_dead_end.
+    destruct (snd _); try apply andb_false_r.
+    destruct (m_next _); [congruence|]. apply andb_false_r.
+  Qed.
 End Main.
 
+
+(* ================================================================== the sequential solver *)
+Section SolverEq.
+  Context {St : Type}.
+  Variable st_eqb : St -> St -> bool.
+  Hypothesis st_eqb_spec : forall a b, st_eqb a b = true <-> a = b.
+  Variable cfg : @sconfig St.
+  Hypothesis cfg_pooled : sc_flavour cfg = Pooled.
+  Hypothesis cfg_imp : forall x s, is_impacted_by (sc_problem cfg) x s = true.
+  Hypothesis cfg_width : 1 <= sc_width cfg.
+  Hypothesis cfg_nocache : sc_use_cache cfg = false.
+
+  (* the same solver configuration with the frontier-cut-set clean diagram *)
+  Definition cfg_fc : @sconfig St :=
+    {| sc_flavour := CleanFC; sc_problem := sc_problem cfg; sc_relax := sc_relax cfg; sc_ranking := sc_ranking cfg;
+       sc_domcmp := sc_domcmp cfg; sc_domrule := sc_domrule cfg; sc_width := sc_width cfg;
+       sc_use_cache := sc_use_cache cfg; sc_nodup := sc_nodup cfg; sc_cutoff := sc_cutoff cfg |}.
+
+  Lemma mk_input_fc ct node lb : mk_input cfg_fc ct node lb = to_fc (mk_input cfg ct node lb).
+  Proof. reflexivity. Qed.
+
+  Lemma run_compile_eq s ct node :
+    match run_compile st_eqb cfg s ct node, run_compile st_eqb cfg_fc s ct node with
+    | (s1, i1, m1, o1), (s2, i2, m2, o2) => s1 = s2 /\ o1 = o2 /\ obs_core_eq i1 i2 (m1, o1) (m2, o2)
+    end.
+  Proof.
+    unfold run_compile. cbv zeta. rewrite mk_input_fc.
+    set (inp := mk_input cfg ct node (s_lb s)).
+    pose proof (pooled_is_frontier_core st_eqb st_eqb_spec inp cfg_pooled cfg_imp cfg_width 0 0 (s_cache s) (s_dom s) (s_polls s)) as Hc.
+    pose proof (pooled_is_frontier_nocache st_eqb st_eqb_spec inp cfg_pooled cfg_imp cfg_width 0 0 (s_cache s) (s_dom s) (s_polls s) cfg_nocache) as [Hcr Hca].
+    destruct (compile st_eqb inp 0 0 (s_cache s) (s_dom s) (s_polls s)) as [m1 o1].
+    destruct (compile st_eqb (to_fc inp) 0 0 (s_cache s) (s_dom s) (s_polls s)) as [m2 o2].
+    cbn [fst snd] in *. pose proof Hc as [H1 H2 H3 H4 _ _ _ _ _ _ _]. cbn [fst snd] in *.
+    rewrite Hcr, Hca, H2, H3, H4. subst o2. auto.
+  Qed.
+
+  Lemma process_one_node_eq s node :
+    process_one_node st_eqb cfg s node = process_one_node st_eqb cfg_fc s node.
+  Proof.
+    unfold process_one_node. cbv zeta. change (sc_use_cache cfg_fc) with (sc_use_cache cfg).
+    destruct (_ <=? _)%Z; [reflexivity|].
+    match goal with |- match ?e with _ => _ end = _ => destruct e as [[|]|] end; try reflexivity.
+    pose proof (run_compile_eq s Restricted node) as H1.
+    destruct (run_compile st_eqb cfg s Restricted node) as [[[s1 i1] m1] o1].
+    destruct (run_compile st_eqb cfg_fc s Restricted node) as [[[s2 i2] m2] o2].
+    destruct H1 as (<- & <- & C1). destruct o1; try reflexivity.
+    pose proof (oc_best_exact_value _ _ _ _ C1 eq_refl) as V1. pose proof (oc_best_exact_solution _ _ _ _ C1 eq_refl) as S1.
+    pose proof (oc_is_exact _ _ _ _ C1 eq_refl) as X1. cbn [fst snd] in V1, S1, X1.
+    assert (U1 : maybe_update_best s1 i1 m1 = maybe_update_best s1 i2 m2) by (unfold maybe_update_best; rewrite V1, S1; reflexivity).
+    rewrite U1, X1.
+    destruct (dd_is_exact m2); [reflexivity|].
+    pose proof (run_compile_eq (maybe_update_best s1 i2 m2) Relaxed node) as H2.
+    destruct (run_compile st_eqb cfg (maybe_update_best s1 i2 m2) Relaxed node) as [[[s3 i3] m3] o3].
+    destruct (run_compile st_eqb cfg_fc (maybe_update_best s1 i2 m2) Relaxed node) as [[[s4 i4] m4] o4].
+    destruct H2 as (<- & <- & C2). destruct o3; try reflexivity.
+    pose proof (oc_best_exact_value _ _ _ _ C2 eq_refl) as V2. pose proof (oc_best_exact_solution _ _ _ _ C2 eq_refl) as S2.
+    pose proof (oc_is_exact _ _ _ _ C2 eq_refl) as X2. pose proof (oc_cutset _ _ _ _ C2 eq_refl) as D2.
+    cbn [fst snd] in V2, S2, X2, D2.
+    assert (U2 : maybe_update_best s3 i3 m3 = maybe_update_best s3 i4 m4) by (unfold maybe_update_best; rewrite V2, S2; reflexivity).
+    rewrite U2, X2. destruct (dd_is_exact m4); [reflexivity|].
+    unfold enqueue_cutset. rewrite D2. reflexivity.
+  Qed.
+
+  Lemma main_loop_eq : forall fuel s, main_loop st_eqb cfg fuel s = main_loop st_eqb cfg_fc fuel s.
+  Proof.
+    induction fuel as [|fuel IH]; intros s; [reflexivity|]. cbn [main_loop].
+    destruct (s_crash s); [reflexivity|].
+    change (get_workload st_eqb cfg_fc s) with (get_workload st_eqb cfg s).
+    destruct (get_workload st_eqb cfg s) as [s1 w]. destruct w as [| |node]; try reflexivity.
+    rewrite process_one_node_eq. destruct (process_one_node st_eqb cfg_fc s1 node) as [s2 err].
+    destruct err; [reflexivity|apply IH].
+  Qed.
+
+  (* the pooled solver IS the frontier solver (no cache: see the finding about the dead end at the bottom) *)
+  Theorem maximize_pooled_eq fuel primal : maximize st_eqb cfg fuel primal = maximize st_eqb cfg_fc fuel primal.
+  Proof.
+    unfold maximize.
+    change (initialize_solver st_eqb cfg_fc) with (initialize_solver st_eqb cfg).
+    change (init_sstate cfg_fc) with (init_sstate cfg).
+    rewrite main_loop_eq. reflexivity.
+  Qed.
+End SolverEq.
+
+(* ================================================================== the parallel solver (protocol model Par.v) *)
+Section ParBlind.
+  Context {St : Type}.
+  Variable st_eqb : St -> St -> bool.
+  Variable cfg : @sconfig St.
+  Notation pstateT := (@Par.pstate St).
+
+  (* replace the worker table *)
+  Definition wk (s : pstateT) (ws : list (@Par.pc St)) : pstateT :=
+    Par.mk (Par.p_simple s) (Par.p_nodup s) (Par.p_ongoing s) (Par.p_explored s) (Par.p_open s)
+      (Par.p_ongoing_by_layer s) (Par.p_fal s) (Par.p_lb s) (Par.p_ub s) (Par.p_sol s) (Par.p_upper_bounds s)
+      (Par.p_abort s) (Par.p_cache s) (Par.p_dom s) (Par.p_polls s) (Par.p_crash s) (Par.p_tie s) ws.
+  Lemma wk_self s : wk s (Par.p_workers s) = s. Proof. destruct s; reflexivity. Qed.
+  Lemma wk_wk s a b : wk (wk s a) b = wk s b. Proof. reflexivity. Qed.
+
+  Lemma w_crashed s ws : Par.p_crashed (wk s ws) = wk (Par.p_crashed s) ws. Proof. reflexivity. Qed.
+  Lemma w_pf_push s ws n : Par.pf_push st_eqb cfg (wk s ws) n = wk (Par.pf_push st_eqb cfg s n) ws.
+  Proof. unfold Par.pf_push. destruct (sc_nodup cfg); [|reflexivity]. cbn [Par.p_nodup wk Par.mk]. destruct (k_push _ _ _ _); reflexivity. Qed.
+  Lemma w_pf_pop s ws : Par.pf_pop st_eqb cfg (wk s ws) = (wk (fst (Par.pf_pop st_eqb cfg s)) ws, snd (Par.pf_pop st_eqb cfg s)).
+  Proof.
+    unfold Par.pf_pop. destruct (sc_nodup cfg).
+    - cbn [Par.p_nodup wk Par.mk]. destruct (k_pop _ _ _) as [[f r]|]; reflexivity.
+    - cbn [Par.p_simple wk Par.mk]. destruct (pq_pop cfg _) as [[x rest]|]; reflexivity.
+  Qed.
+  Lemma w_pf_len s ws : Par.pf_len cfg (wk s ws) = Par.pf_len cfg s. Proof. reflexivity. Qed.
+
+  Lemma w_clean fuel : forall s ws, Par.p_clean_cache_loop cfg fuel (wk s ws) = wk (Par.p_clean_cache_loop cfg fuel s) ws.
+  Proof.
+    induction fuel as [|fuel IH]; intros s ws; [reflexivity|]. cbn [Par.p_clean_cache_loop].
+    cbn [Par.p_fal Par.p_open Par.p_ongoing_by_layer Par.p_cache wk Par.mk].
+    destruct (_ <? _); [|reflexivity].
+    destruct (nth_error (Par.p_open s) (Par.p_fal s)); [|reflexivity].
+    destruct (nth_error (Par.p_ongoing_by_layer s) (Par.p_fal s)); [|reflexivity].
+    destruct (_ =? _); [|reflexivity].
+    destruct (if sc_use_cache cfg then clear_layer (Par.p_cache s) (Par.p_fal s) else Some (Par.p_cache s)); [|reflexivity].
+    apply (IH (Par.with_cache_fal s c (S (Par.p_fal s))) ws).
+  Qed.
+
+  Lemma w_gw_select fuel : forall s ws nn,
+    Par.gw_select st_eqb cfg fuel (wk s ws) nn =
+    (wk (fst (Par.gw_select st_eqb cfg fuel s nn)) ws, snd (Par.gw_select st_eqb cfg fuel s nn)).
+  Proof.
+    induction fuel as [|fuel IH]; intros s ws nn; [reflexivity|]. cbn [Par.gw_select].
+    cbn [Par.p_lb Par.p_cache Par.p_open wk Par.mk].
+    destruct (_ <=? _)%Z; [reflexivity|].
+    destruct (if sc_use_cache cfg then must_explore st_eqb (Par.p_cache s) (sp_state nn) (sp_depth nn) (sp_value nn) else Some true) as [[|]|].
+    - destruct (if sc_use_cache cfg then update_threshold st_eqb (Par.p_cache s) (sp_state nn) (sp_depth nn) (sp_value nn) true else Some (Par.p_cache s)); reflexivity.
+    - destruct (nth_error (Par.p_open s) (sp_depth nn)) as [[|k]|]; try reflexivity.
+      set (s1 := Par.with_open s (upd_nth (sp_depth nn) (fun _ => k) (Par.p_open s)) (Par.p_ongoing_by_layer s)).
+      change (Par.with_open (wk s ws) (upd_nth (sp_depth nn) (fun _ => k) (Par.p_open s)) (Par.p_ongoing_by_layer (wk s ws)))
+        with (wk s1 ws).
+      rewrite w_pf_len. destruct (_ =? _); [reflexivity|].
+      rewrite w_pf_pop. destruct (Par.pf_pop st_eqb cfg s1) as [s2 o]. cbn [fst snd].
+      destruct o; [apply IH|reflexivity].
+    - reflexivity.
+  Qed.
+
+  Lemma w_get_workload s ws w :
+    Par.get_workload st_eqb cfg (wk s ws) w =
+    (wk (fst (Par.get_workload st_eqb cfg s w)) ws, snd (Par.get_workload st_eqb cfg s w)).
+  Proof.
+    unfold Par.get_workload. cbv zeta. rewrite w_clean.
+    set (s0 := Par.p_clean_cache_loop cfg (S (nb_vars (sc_problem cfg))) s).
+    cbn [Par.p_crash Par.p_ongoing Par.p_abort wk Par.mk]. rewrite !w_pf_len.
+    destruct (Par.p_crash s0); [reflexivity|].
+    destruct (_ && _); [reflexivity|].
+    destruct (Par.p_abort s0); [reflexivity|].
+    destruct (_ =? _); [reflexivity|].
+    rewrite w_pf_pop. destruct (Par.pf_pop st_eqb cfg s0) as [s1 o]. cbn [fst snd].
+    destruct o as [nn|]; [|reflexivity].
+    rewrite w_pf_len, w_gw_select.
+    destruct (Par.gw_select st_eqb cfg (S (S (Par.pf_len cfg s1))) s1 nn) as [s2 r]. cbn [fst snd].
+    destruct r; try reflexivity.
+    cbn [Par.p_upper_bounds Par.p_open Par.p_ongoing_by_layer wk Par.mk].
+    destruct (nth_error (Par.p_upper_bounds s2) w); [|reflexivity].
+    destruct (nth_error (Par.p_open s2) (sp_depth n)) as [[|k]|]; try reflexivity.
+    destruct (nth_error (Par.p_ongoing_by_layer s2) (sp_depth n)); reflexivity.
+  Qed.
+
+  Lemma w_p_compile s ws ct node lb :
+    Par.p_compile st_eqb cfg (wk s ws) ct node lb =
+    (let '(s', i, m, o) := Par.p_compile st_eqb cfg s ct node lb in (wk s' ws, i, m, o)).
+  Proof.
+    unfold Par.p_compile. cbv zeta. cbn [Par.p_cache Par.p_dom Par.p_polls wk Par.mk].
+    destruct (compile st_eqb _ 0 0 _ _ _) as [m o]. reflexivity.
+  Qed.
+  Lemma w_maybe_update_best s ws i m :
+    Par.p_maybe_update_best (wk s ws) i m = wk (Par.p_maybe_update_best s i m) ws.
+  Proof. unfold Par.p_maybe_update_best. cbv zeta. cbn [Par.p_lb wk Par.mk]. destruct (_ >? _)%Z; reflexivity. Qed.
+  Lemma w_fold {B} (f : pstateT -> B -> pstateT) (l : list B) :
+    (forall s ws x, f (wk s ws) x = wk (f s x) ws) -> forall s ws, fold_left f l (wk s ws) = wk (fold_left f l s) ws.
+  Proof. intros Hf. induction l as [|x l IH]; intros s ws; simpl; [reflexivity|]. rewrite Hf. apply IH. Qed.
+  Lemma w_enqueue_cutset s ws i m ub :
+    Par.p_enqueue_cutset st_eqb cfg (wk s ws) i m ub = wk (Par.p_enqueue_cutset st_eqb cfg s i m ub) ws.
+  Proof.
+    unfold Par.p_enqueue_cutset. cbv zeta. change (Par.p_lb (wk s ws)) with (Par.p_lb s).
+    apply w_fold. intros a wa c. destruct (_ >? _)%Z; [|reflexivity].
+    rewrite w_pf_push, !w_pf_len.
+    set (a1 := Par.pf_push st_eqb cfg a _).
+    cbn [Par.p_open wk Par.mk]. destruct (nth_error (Par.p_open a1) (sp_depth c)); reflexivity.
+  Qed.
+  Lemma w_workers_get_workload s w :
+    Par.p_workers (fst (Par.get_workload st_eqb cfg s w)) = Par.p_workers s.
+  Proof.
+    pose proof (w_get_workload s (Par.p_workers s) w) as H. rewrite wk_self in H.
+    rewrite H at 1. reflexivity.
+  Qed.
+  Lemma w_workers_enqueue s i m ub : Par.p_workers (Par.p_enqueue_cutset st_eqb cfg s i m ub) = Par.p_workers s.
+  Proof.
+    pose proof (w_enqueue_cutset s (Par.p_workers s) i m ub) as H. rewrite wk_self in H. rewrite H at 1. reflexivity.
+  Qed.
+  Lemma w_workers_pf_pop s : Par.p_workers (fst (Par.pf_pop st_eqb cfg s)) = Par.p_workers s.
+  Proof. pose proof (w_pf_pop s (Par.p_workers s)) as H. rewrite wk_self in H. rewrite H at 1. reflexivity. Qed.
+End ParBlind.
+
+Section ParEq.
+  Context {St : Type}.
+  Variable st_eqb : St -> St -> bool.
+  Hypothesis st_eqb_spec : forall a b, st_eqb a b = true <-> a = b.
+  Variable cfg : @sconfig St.
+  Hypothesis cfg_pooled : sc_flavour cfg = Pooled.
+  Hypothesis cfg_imp : forall x s, is_impacted_by (sc_problem cfg) x s = true.
+  Hypothesis cfg_width : 1 <= sc_width cfg.
+  Hypothesis cfg_nocache : sc_use_cache cfg = false.
+  Notation cfgc := (cfg_fc cfg).
+  Notation pstateT := (@Par.pstate St).
+
+  (* a worker holds the diagram it compiled: related workers hold diagrams with the same observations *)
+  Definition dd_rel (i1 : @cinput St) (m1 : @mdd St) (i2 : @cinput St) (m2 : @mdd St) : Prop :=
+    obs_core_eq i1 i2 (m1, Compiled) (m2, Compiled).
+  Inductive pc_rel : @Par.pc St -> @Par.pc St -> Prop :=
+  | pr_getwork : pc_rel Par.PGetWork Par.PGetWork
+  | pr_parked : pc_rel Par.PParked Par.PParked
+  | pr_readlb1 n : pc_rel (Par.PReadLb1 n) (Par.PReadLb1 n)
+  | pr_update1 n i1 m1 i2 m2 : dd_rel i1 m1 i2 m2 -> pc_rel (Par.PUpdate1 n i1 m1) (Par.PUpdate1 n i2 m2)
+  | pr_readlb2 n : pc_rel (Par.PReadLb2 n) (Par.PReadLb2 n)
+  | pr_update2 n i1 m1 i2 m2 : dd_rel i1 m1 i2 m2 -> pc_rel (Par.PUpdate2 n i1 m1) (Par.PUpdate2 n i2 m2)
+  | pr_enqueue n i1 m1 i2 m2 : dd_rel i1 m1 i2 m2 -> pc_rel (Par.PEnqueue n i1 m1) (Par.PEnqueue n i2 m2)
+  | pr_abort n : pc_rel (Par.PAbort n) (Par.PAbort n)
+  | pr_notify n b : pc_rel (Par.PNotify n b) (Par.PNotify n b)
+  | pr_exited : pc_rel Par.PExited Par.PExited.
+  Definition wrel := Forall2 pc_rel.
+
+  (* same shared state, related worker tables *)
+  Inductive prel : pstateT -> pstateT -> Prop :=
+  | prel_intro sh ws1 ws2 : wrel ws1 ws2 -> prel (wk sh ws1) (wk sh ws2).
+
+  Lemma prel_inv s1 s2 : prel s1 s2 -> s2 = wk s1 (Par.p_workers s2) /\ wrel (Par.p_workers s1) (Par.p_workers s2).
+  Proof. intros [sh ws1 ws2 H]. split; [reflexivity|exact H]. Qed.
+
+  Lemma wrel_nth l1 l2 w : wrel l1 l2 ->
+    match nth_error l1 w, nth_error l2 w with
+    | Some a, Some b => pc_rel a b | None, None => True | _, _ => False end.
+  Proof. intros H. revert w. induction H as [|a b l1 l2 Hab _ IH]; intros [|w]; simpl; auto. apply IH. Qed.
+  Lemma wrel_upd l1 l2 w a b : wrel l1 l2 -> pc_rel a b -> wrel (upd_nth w (fun _ => a) l1) (upd_nth w (fun _ => b) l2).
+  Proof.
+    intros H Hab. revert w. induction H as [|x y l1 l2 Hxy Ht IH]; intros [|w]; simpl.
+    - constructor.
+    - constructor.
+    - constructor; assumption.
+    - constructor; [assumption|apply IH].
+  Qed.
+  Lemma wrel_wake l1 l2 : wrel l1 l2 -> wrel (Par.wake_all l1) (Par.wake_all l2).
+  Proof.
+    intros H. induction H as [|x y l1 l2 Hxy _ IH]; simpl; constructor; [|exact IH].
+    destruct Hxy; constructor; assumption.
+  Qed.
+  Lemma wrel_length l1 l2 : wrel l1 l2 -> length l1 = length l2.
+  Proof. intros H. induction H; simpl; congruence. Qed.
+
+  Lemma prel_mk a1 a2 a3 a4 a5 a6 a7 a8 a9 a10 a11 a12 a13 a14 a15 a16 a17 wa wb : wrel wa wb ->
+    prel (Par.mk a1 a2 a3 a4 a5 a6 a7 a8 a9 a10 a11 a12 a13 a14 a15 a16 a17 wa)
+         (Par.mk a1 a2 a3 a4 a5 a6 a7 a8 a9 a10 a11 a12 a13 a14 a15 a16 a17 wb).
+  Proof. intros H. apply (prel_intro (Par.mk a1 a2 a3 a4 a5 a6 a7 a8 a9 a10 a11 a12 a13 a14 a15 a16 a17 []) wa wb H). Qed.
+  Ltac pnorm :=
+    cbn [wk Par.mk Par.pf_clear Par.with_fringe Par.p_simple Par.p_nodup Par.p_ongoing Par.p_explored Par.p_open
+         Par.p_ongoing_by_layer Par.p_fal Par.p_lb Par.p_ub Par.p_sol Par.p_upper_bounds Par.p_abort Par.p_cache
+         Par.p_dom Par.p_polls Par.p_crash Par.p_tie Par.p_workers].
+
+  Lemma set_worker_wk (s : pstateT) w p : Par.set_worker s w p = wk s (upd_nth w (fun _ => p) (Par.p_workers s)).
+  Proof. reflexivity. Qed.
+
+  Lemma p_compile_eq s ct node lb :
+    match Par.p_compile st_eqb cfg s ct node lb, Par.p_compile st_eqb cfgc s ct node lb with
+    | (s1, i1, m1, o1), (s2, i2, m2, o2) => s1 = s2 /\ o1 = o2 /\ obs_core_eq i1 i2 (m1, o1) (m2, o2)
+    end.
+  Proof.
+    unfold Par.p_compile. cbv zeta. rewrite mk_input_fc.
+    set (inp := mk_input cfg ct node lb).
+    pose proof (pooled_is_frontier_core st_eqb st_eqb_spec inp cfg_pooled cfg_imp cfg_width 0 0 (Par.p_cache s) (Par.p_dom s) (Par.p_polls s)) as Hc.
+    pose proof (pooled_is_frontier_nocache st_eqb st_eqb_spec inp cfg_pooled cfg_imp cfg_width 0 0 (Par.p_cache s) (Par.p_dom s) (Par.p_polls s) cfg_nocache) as [Hcr Hca].
+    destruct (compile st_eqb inp 0 0 (Par.p_cache s) (Par.p_dom s) (Par.p_polls s)) as [m1 o1].
+    destruct (compile st_eqb (to_fc inp) 0 0 (Par.p_cache s) (Par.p_dom s) (Par.p_polls s)) as [m2 o2].
+    cbn [fst snd] in *. pose proof Hc as [H1 H2 H3 H4 _ _ _ _ _ _ _]. cbn [fst snd] in *.
+    rewrite Hcr, Hca, H2, H3, H4. subst o2. auto.
+  Qed.
+
+  Lemma maybe_update_best_rel s i1 m1 i2 m2 : dd_rel i1 m1 i2 m2 ->
+    Par.p_maybe_update_best s i1 m1 = Par.p_maybe_update_best s i2 m2.
+  Proof.
+    intros C. pose proof (oc_best_exact_value _ _ _ _ C eq_refl) as V. pose proof (oc_best_exact_solution _ _ _ _ C eq_refl) as S.
+    cbn [fst snd] in V, S. unfold Par.p_maybe_update_best. rewrite V, S. reflexivity.
+  Qed.
+
+  Lemma par_step_sim s1 s2 w : prel s1 s2 ->
+    match Par.par_step st_eqb cfg s1 w, Par.par_step st_eqb cfgc s2 w with
+    | Some (a, t1), Some (b, t2) => prel a b /\ t1 = t2
+    | None, None => True
+    | _, _ => False
+    end.
+  Proof.
+    intros [sh ws1 ws2 Hw]. unfold Par.par_step.
+    change (Par.p_workers (wk sh ws1)) with ws1. change (Par.p_workers (wk sh ws2)) with ws2.
+    pose proof (wrel_nth ws1 ws2 w Hw) as Hn.
+    destruct (nth_error ws1 w) as [p|], (nth_error ws2 w) as [q|]; try contradiction; [|exact I].
+    destruct Hn.
+    - (* PGetWork *)
+      change (Par.get_workload st_eqb cfgc) with (Par.get_workload st_eqb cfg).
+      rewrite !(w_get_workload st_eqb cfg sh _ w).
+      destruct (Par.get_workload st_eqb cfg sh w) as [s' r]. cbn [fst snd].
+      destruct r; (split; [|reflexivity]); rewrite !set_worker_wk;
+        try (apply (prel_intro s'); apply wrel_upd; [exact Hw|constructor]).
+      rewrite !w_crashed. apply (prel_intro (Par.p_crashed s')). apply wrel_upd; [exact Hw|constructor].
+    - exact I.
+    - (* PReadLb1 *)
+      change (Par.p_lb (wk sh ws1)) with (Par.p_lb sh). change (Par.p_lb (wk sh ws2)) with (Par.p_lb sh).
+      split; [|reflexivity]. destruct (_ <=? _)%Z.
+      + rewrite !set_worker_wk. apply (prel_intro sh). apply wrel_upd; [exact Hw|constructor].
+      + rewrite !w_p_compile. pose proof (p_compile_eq sh Restricted n (Par.p_lb sh)) as Hc.
+        destruct (Par.p_compile st_eqb cfg sh Restricted n (Par.p_lb sh)) as [[[sa i1] m1] o1].
+        destruct (Par.p_compile st_eqb cfgc sh Restricted n (Par.p_lb sh)) as [[[sb i2] m2] o2].
+        destruct Hc as (<- & <- & C). rewrite !set_worker_wk.
+        destruct o1; apply (prel_intro sa); apply wrel_upd; try exact Hw; constructor. exact C.
+    - (* PUpdate1 *)
+      split; [|reflexivity]. rewrite !w_maybe_update_best, (maybe_update_best_rel sh i1 m1 i2 m2 H).
+      pose proof (oc_is_exact _ _ _ _ H eq_refl) as X. cbn [fst snd] in X. rewrite X.
+      rewrite !set_worker_wk. destruct (dd_is_exact m2); apply (prel_intro (Par.p_maybe_update_best sh i2 m2));
+        apply wrel_upd; try exact Hw; constructor.
+    - (* PReadLb2 *)
+      change (Par.p_lb (wk sh ws1)) with (Par.p_lb sh). change (Par.p_lb (wk sh ws2)) with (Par.p_lb sh).
+      rewrite !w_p_compile. pose proof (p_compile_eq sh Relaxed n (Par.p_lb sh)) as Hc.
+      destruct (Par.p_compile st_eqb cfg sh Relaxed n (Par.p_lb sh)) as [[[sa i1] m1] o1].
+      destruct (Par.p_compile st_eqb cfgc sh Relaxed n (Par.p_lb sh)) as [[[sb i2] m2] o2].
+      destruct Hc as (<- & <- & C). split; [|reflexivity]. rewrite !set_worker_wk.
+      destruct o1; apply (prel_intro sa); apply wrel_upd; try exact Hw; constructor. exact C.
+    - (* PUpdate2 *)
+      split; [|reflexivity]. rewrite !w_maybe_update_best, (maybe_update_best_rel sh i1 m1 i2 m2 H).
+      pose proof (oc_is_exact _ _ _ _ H eq_refl) as X. cbn [fst snd] in X. rewrite X.
+      rewrite !set_worker_wk. destruct (dd_is_exact m2); apply (prel_intro (Par.p_maybe_update_best sh i2 m2));
+        apply wrel_upd; try exact Hw; constructor. exact H.
+    - (* PEnqueue *)
+      split; [|reflexivity].
+      change (Par.p_enqueue_cutset st_eqb cfgc) with (Par.p_enqueue_cutset st_eqb cfg).
+      rewrite !w_enqueue_cutset.
+      assert (E : Par.p_enqueue_cutset st_eqb cfg sh i1 m1 (sp_ub n) = Par.p_enqueue_cutset st_eqb cfg sh i2 m2 (sp_ub n)).
+      { pose proof (oc_cutset _ _ _ _ H eq_refl) as D. cbn [fst snd] in D. unfold Par.p_enqueue_cutset. rewrite D. reflexivity. }
+      rewrite E, !set_worker_wk. apply (prel_intro (Par.p_enqueue_cutset st_eqb cfg sh i2 m2 (sp_ub n))).
+      apply wrel_upd; [exact Hw|constructor].
+    - (* PAbort *)
+      change (Par.pf_pop st_eqb cfgc) with (Par.pf_pop st_eqb cfg).
+      change (Par.p_upper_bounds (wk sh ws1)) with (Par.p_upper_bounds sh). change (Par.p_upper_bounds (wk sh ws2)) with (Par.p_upper_bounds sh).
+      change (Par.p_lb (wk sh ws1)) with (Par.p_lb sh). change (Par.p_lb (wk sh ws2)) with (Par.p_lb sh).
+      rewrite !w_pf_pop. destruct (Par.pf_pop st_eqb cfg sh) as [s' top]. cbn [fst snd].
+      split; [|reflexivity]. rewrite !set_worker_wk.
+      pnorm. apply prel_mk. apply wrel_upd; [exact Hw|constructor].
+    - (* PNotify *)
+      change (Par.p_ongoing (wk sh ws1)) with (Par.p_ongoing sh). change (Par.p_ongoing (wk sh ws2)) with (Par.p_ongoing sh).
+      change (Par.p_ongoing_by_layer (wk sh ws1)) with (Par.p_ongoing_by_layer sh).
+      change (Par.p_ongoing_by_layer (wk sh ws2)) with (Par.p_ongoing_by_layer sh).
+      change (Par.p_upper_bounds (wk sh ws1)) with (Par.p_upper_bounds sh). change (Par.p_upper_bounds (wk sh ws2)) with (Par.p_upper_bounds sh).
+      destruct (Par.p_ongoing sh) as [|k]; [|destruct (nth_error (Par.p_ongoing_by_layer sh) (sp_depth n)) as [[|j]|];
+        [| destruct (nth_error (Par.p_upper_bounds sh) w) |]];
+        (split; [|reflexivity]); rewrite !set_worker_wk.
+      all: try (rewrite !w_crashed; apply (prel_intro (Par.p_crashed sh)); apply wrel_upd; [exact Hw|constructor]).
+      pnorm. apply prel_mk. apply wrel_upd; [apply wrel_wake; exact Hw|destruct b; constructor].
+    - exact I.
+  Qed.
+
+  Lemma pc_rel_enabled p q : pc_rel p q ->
+    match p with Par.PParked | Par.PExited => false | _ => true end =
+    match q with Par.PParked | Par.PExited => false | _ => true end.
+  Proof. intros []; reflexivity. Qed.
+
+  Lemma prel_enabled s1 s2 : prel s1 s2 -> Par.enabled s1 = Par.enabled s2.
+  Proof.
+    intros [sh ws1 ws2 Hw]. unfold Par.enabled.
+    change (Par.p_workers (wk sh ws1)) with ws1. change (Par.p_workers (wk sh ws2)) with ws2.
+    rewrite (wrel_length _ _ Hw). apply filter_ext. intros w.
+    pose proof (wrel_nth ws1 ws2 w Hw) as Hn.
+    destruct (nth_error ws1 w) as [p|], (nth_error ws2 w) as [q|]; try contradiction; [|reflexivity].
+    destruct Hn; reflexivity.
+  Qed.
+  Lemma prel_all_exited s1 s2 : prel s1 s2 -> Par.all_exited s1 = Par.all_exited s2.
+  Proof.
+    intros [sh ws1 ws2 Hw]. unfold Par.all_exited.
+    change (Par.p_workers (wk sh ws1)) with ws1. change (Par.p_workers (wk sh ws2)) with ws2.
+    induction Hw as [|p q l1 l2 Hpq _ IH]; [reflexivity|]. cbn [forallb]. rewrite IH. destruct Hpq; reflexivity.
+  Qed.
+
+  Lemma par_run_sim : forall fuel s1 s2 sched last trace, prel s1 s2 ->
+    match Par.par_run st_eqb cfg fuel s1 sched last trace, Par.par_run st_eqb cfgc fuel s2 sched last trace with
+    | (a, t1, e1), (b, t2, e2) => prel a b /\ t1 = t2 /\ e1 = e2
+    end.
+  Proof.
+    induction fuel as [|fuel IH]; intros s1 s2 sched last trace H; cbn [Par.par_run]; [auto|].
+    rewrite <- (prel_all_exited _ _ H), <- (prel_enabled _ _ H).
+    destruct (Par.all_exited s1); [auto|].
+    destruct (Par.choose (Par.enabled s1) sched last) as [[w|] rest]; [|auto].
+    pose proof (par_step_sim s1 s2 w H) as Hs.
+    destruct (Par.par_step st_eqb cfg s1 w) as [[a t1]|], (Par.par_step st_eqb cfgc s2 w) as [[b t2]|]; try contradiction; [|auto].
+    destruct Hs as [Hab <-]. apply IH. exact Hab.
+  Qed.
+
+  Lemma wrel_repeat n : wrel (repeat Par.PGetWork n) (repeat Par.PGetWork n).
+  Proof. induction n; simpl; constructor; [constructor|assumption]. Qed.
+
+  (* the pooled parallel solver is the frontier parallel solver under every schedule *)
+  Theorem par_maximize_pooled_eq fuel ctor nthreads primal sched :
+    Par.par_maximize st_eqb cfg fuel ctor nthreads primal sched = Par.par_maximize st_eqb cfgc fuel ctor nthreads primal sched.
+  Proof.
+    unfold Par.par_maximize.
+    assert (Hi : prel (Par.init_pstate st_eqb cfg ctor nthreads primal) (Par.init_pstate st_eqb cfgc ctor nthreads primal)).
+    { change (Par.init_pstate st_eqb cfgc ctor nthreads primal) with (Par.init_pstate st_eqb cfg ctor nthreads primal).
+      rewrite <- (wk_self (Par.init_pstate st_eqb cfg ctor nthreads primal)). apply prel_intro.
+      unfold Par.init_pstate.
+      destruct (match primal with Some (v, s) => if (v >? IMIN)%Z then (v, Some s) else (IMIN, None) | None => (IMIN, None) end) as [lb sol].
+      destruct (if sc_nodup cfg then _ else _) as [[simple nd] crash]. cbn [Par.p_workers Par.mk]. apply wrel_repeat. }
+    pose proof (par_run_sim fuel _ _ sched None [] Hi) as Hr.
+    destruct (Par.par_run st_eqb cfg fuel (Par.init_pstate st_eqb cfg ctor nthreads primal) sched None []) as [[a t1] e1].
+    destruct (Par.par_run st_eqb cfgc fuel (Par.init_pstate st_eqb cfgc ctor nthreads primal) sched None []) as [[b t2] e2].
+    destruct Hr as ([sh ws1 ws2 _] & <- & <-). reflexivity.
+  Qed.
+End ParEq.
+
+
+(* ================================================================== corollaries: the diagram-level theorems *)
+Section DiagramPooled.
+  Context {St : Type}.
+  Variable st_eqb : St -> St -> bool.
+  Hypothesis st_eqb_spec : forall a b, st_eqb a b = true <-> a = b.
+  Variable inp : @cinput St.
+  Local Notation pb := (ci_problem inp).
+  Local Notation rlx := (ci_relax inp).
+  Local Notation root := (ci_root inp).
+  Local Notation N := (nb_vars (ci_problem inp)).
+  Hypothesis Hpooled : ci_flavour inp = Pooled.
+  Hypothesis Himp : all_impacted inp.
+  Hypothesis Hnocache : ci_use_cache inp = false.
+  Hypothesis Hnodom : ci_domrule inp = None.
+  Hypothesis Hwidth : 1 <= ci_width inp.
+  Hypothesis Hrd : sp_depth root <= N.
+  Hypothesis nv_static : forall k l1 l2, next_variable pb k l1 = next_variable pb k l2.
+  Hypothesis nv_some : forall k l, k < N -> exists x, next_variable pb k l = Some x.
+  Hypothesis nv_none : forall k l, N <= k -> next_variable pb k l = None.
+  Variable B : Z.
+  Hypothesis HB : (2 * B <= IMAX)%Z.
+  Hypothesis Hguard : forall ds s' v',
+    frun pb (sp_depth root) (sp_state root) (sp_value root) ds = Some (s', v') -> (- B <= v' <= B)%Z.
+
+  (* a completed pooled compilation has a completed frontier twin with the same observations *)
+  Lemma pooled_twin tb tb2 c ds polls m :
+    compile st_eqb inp tb tb2 c ds polls = (m, Compiled) ->
+    exists mc, compile st_eqb (to_fc inp) tb tb2 c ds polls = (mc, Compiled) /\
+      dd_is_exact m = dd_is_exact mc /\ dd_best_value inp m = dd_best_value (to_fc inp) mc /\
+      dd_best_exact_value inp m = dd_best_exact_value (to_fc inp) mc /\
+      dd_best_solution inp m = dd_best_solution (to_fc inp) mc /\
+      dd_best_exact_solution inp m = dd_best_exact_solution (to_fc inp) mc /\
+      drain_cutset inp m = drain_cutset (to_fc inp) mc.
+  Proof.
+    intros Hc.
+    pose proof (pooled_is_frontier_core st_eqb st_eqb_spec inp Hpooled Himp Hwidth tb tb2 c ds polls) as [H1 _ _ _ _ H5 H6 H7 H8 H9 H10].
+    rewrite Hc in *. destruct (compile st_eqb (to_fc inp) tb tb2 c ds polls) as [mc oc]. cbn [fst snd] in *. subst oc.
+    exists mc. split; [reflexivity|]. repeat split; auto.
+  Qed.
+
+  Theorem C07_restricted_value_is_feasible_pooled tb tb2 c ds polls m v :
+    compile st_eqb inp tb tb2 c ds polls = (m, Compiled) ->
+    ci_type inp = Restricted \/ ci_type inp = Exact ->
+    dd_best_value inp m = Some v ->
+    exists dl s', frun pb (sp_depth root) (sp_state root) (sp_value root) dl = Some (s', v) /\
+                  length dl = N - sp_depth root /\
+                  dd_best_solution inp m = Some (sp_path root ++ rev dl).
+  Proof.
+    intros Hc Ht Hv. destruct (pooled_twin _ _ _ _ _ _ Hc) as (mc & Hcc & _ & E2 & _ & E4 & _).
+    rewrite E2 in Hv. rewrite E4.
+    exact (C07_restricted_value_is_feasible st_eqb st_eqb_spec (to_fc inp) (or_intror eq_refl) Hnocache Hnodom Hwidth Hrd
+             nv_static nv_some nv_none B HB Hguard tb tb2 c ds polls mc v Hcc Ht Hv).
+  Qed.
+
+  Theorem C07_restricted_lower_bound_pooled tb tb2 c ds polls m v :
+    compile st_eqb inp tb tb2 c ds polls = (m, Compiled) ->
+    ci_type inp = Restricted \/ ci_type inp = Exact ->
+    dd_best_value inp m = Some v ->
+    exists o, vstar inp = Some o /\ (v <= o)%Z.
+  Proof.
+    intros Hc Ht Hv. destruct (pooled_twin _ _ _ _ _ _ Hc) as (mc & Hcc & _ & E2 & _).
+    rewrite E2 in Hv.
+    exact (C07_restricted_lower_bound st_eqb st_eqb_spec (to_fc inp) (or_intror eq_refl) Hnocache Hnodom Hwidth Hrd
+             nv_static nv_some nv_none B HB Hguard tb tb2 c ds polls mc v Hcc Ht Hv).
+  Qed.
+
+  Theorem C07_best_exact_value_is_feasible_pooled tb tb2 c ds polls m v :
+    compile st_eqb inp tb tb2 c ds polls = (m, Compiled) ->
+    dd_best_exact_value inp m = Some v ->
+    exists dl s', frun pb (sp_depth root) (sp_state root) (sp_value root) dl = Some (s', v) /\
+                  length dl = N - sp_depth root /\
+                  dd_best_exact_solution inp m = Some (sp_path root ++ rev dl).
+  Proof.
+    intros Hc Hv. destruct (pooled_twin _ _ _ _ _ _ Hc) as (mc & Hcc & _ & _ & E3 & _ & E5 & _).
+    rewrite E3 in Hv. rewrite E5.
+    exact (C07_best_exact_value_is_feasible st_eqb st_eqb_spec (to_fc inp) (or_intror eq_refl) Hnocache Hnodom Hwidth Hrd
+             nv_static nv_some nv_none B HB Hguard tb tb2 c ds polls mc v Hcc Hv).
+  Qed.
+
+  (* ---- the simulation theorems (relaxation premises as in Diagram.SimIsize) *)
+  Hypothesis Hnocut : ci_cutoff inp = 0.
+  Variable cov : St -> St -> Prop.
+  Hypothesis cov_refl : forall s, cov s s.
+  Hypothesis cov_sim : forall s s' x v, cov s s' -> In v (domain pb x s') ->
+    let d := {| d_var := x; d_val := v |} in
+    In v (domain pb x s) /\ cov (transition pb s d) (transition pb s' d) /\
+    (transition_cost pb s' (transition pb s' d) d <= transition_cost pb s (transition pb s d) d)%Z.
+  Hypothesis merge_cov : forall L s s', In s L -> cov s s' -> cov (merge rlx L) s'.
+  Hypothesis rub_adm : forall k s s' h, cov s s' -> H pb k s' = Some h -> (h <= fast_upper_bound rlx s)%Z.
+  Hypothesis cost_isize : forall s d, in_isize (transition_cost pb s (transition pb s d) d).
+  Hypothesis relax_isize : forall src dst mg d c, in_isize c -> in_isize (relax rlx src dst mg d c).
+  Hypothesis relax_ge_isize : forall src dst mg d c, in_isize c -> (c <= relax rlx src dst mg d c)%Z.
+
+  Theorem S1_relaxed_upper_bound_isize_pooled tb tb2 c ds polls m o :
+    compile st_eqb inp tb tb2 c ds polls = (m, Compiled) ->
+    ci_type inp = Relaxed \/ ci_type inp = Exact ->
+    vstar inp = Some o -> (o > ci_best_lb inp)%Z ->
+    exists b, dd_best_value inp m = Some b /\ (o <= b)%Z.
+  Proof.
+    intros Hc Ht Hv Hlb. destruct (pooled_twin _ _ _ _ _ _ Hc) as (mc & Hcc & _ & E2 & _). rewrite E2.
+    exact (S1_relaxed_upper_bound_isize st_eqb st_eqb_spec (to_fc inp) (or_intror eq_refl) Hnocache Hnodom Hnocut Hwidth Hrd
+             nv_static nv_some nv_none cov cov_refl cov_sim merge_cov rub_adm cost_isize relax_isize relax_ge_isize
+             B HB Hguard tb tb2 c ds polls mc o Hcc Ht Hv Hlb).
+  Qed.
+
+  Theorem S2_exact_truthful_isize_pooled tb tb2 c ds polls m o :
+    compile st_eqb inp tb tb2 c ds polls = (m, Compiled) ->
+    dd_is_exact m = true -> vstar inp = Some o -> (o > ci_best_lb inp)%Z ->
+    dd_best_exact_value inp m = Some o.
+  Proof.
+    intros Hc Hex Hv Hlb. destruct (pooled_twin _ _ _ _ _ _ Hc) as (mc & Hcc & E1 & _ & E3 & _). rewrite E3. rewrite E1 in Hex.
+    exact (S2_exact_truthful_isize st_eqb st_eqb_spec (to_fc inp) (or_intror eq_refl) Hnocache Hnodom Hnocut Hwidth Hrd
+             nv_static nv_some nv_none cov cov_refl cov_sim merge_cov rub_adm cost_isize relax_isize relax_ge_isize
+             B HB Hguard tb tb2 c ds polls mc o Hcc Hex Hv Hlb).
+  Qed.
+
+  Theorem S2_exact_mode_isize_pooled tb tb2 c ds polls m o :
+    compile st_eqb inp tb tb2 c ds polls = (m, Compiled) ->
+    ci_type inp = Exact -> vstar inp = Some o -> (o > ci_best_lb inp)%Z ->
+    dd_best_value inp m = Some o.
+  Proof.
+    intros Hc Ht Hv Hlb. destruct (pooled_twin _ _ _ _ _ _ Hc) as (mc & Hcc & _ & E2 & _). rewrite E2.
+    exact (S2_exact_mode_isize st_eqb st_eqb_spec (to_fc inp) (or_intror eq_refl) Hnocache Hnodom Hnocut Hwidth Hrd
+             nv_static nv_some nv_none cov cov_refl cov_sim merge_cov rub_adm cost_isize relax_isize relax_ge_isize
+             B HB Hguard tb tb2 c ds polls mc o Hcc Ht Hv Hlb).
+  Qed.
+
+  Theorem S3_cutset_ub_isize_pooled tb tb2 c ds polls m sp o :
+    compile st_eqb inp tb tb2 c ds polls = (m, Compiled) ->
+    ci_type inp = Relaxed -> dd_is_exact m = false ->
+    In sp (drain_cutset inp m) ->
+    oadd (sp_value sp) (H pb (sp_depth sp) (sp_state sp)) = Some o -> (o > ci_best_lb inp)%Z ->
+    (o <= sp_ub sp)%Z.
+  Proof.
+    intros Hc Ht Hnex Hsp Ho Hlb.
+    destruct (pooled_twin _ _ _ _ _ _ Hc) as (mc & Hcc & E1 & _ & _ & _ & _ & E6). rewrite E1 in Hnex. rewrite E6 in Hsp.
+    exact (S3_cutset_ub_isize st_eqb st_eqb_spec (to_fc inp) (or_intror eq_refl) Hnocache Hnodom Hnocut Hwidth Hrd
+             nv_static nv_some nv_none cov cov_refl cov_sim merge_cov rub_adm cost_isize relax_isize relax_ge_isize
+             B HB Hguard tb tb2 c ds polls mc sp o Hcc Ht Hnex Hsp Ho Hlb).
+  Qed.
+
+  Theorem S4_cutset_covers_isize_pooled tb tb2 c ds polls m o :
+    compile st_eqb inp tb tb2 c ds polls = (m, Compiled) ->
+    ci_type inp = Relaxed -> dd_is_exact m = false -> vstar inp = Some o -> (o > ci_best_lb inp)%Z ->
+    (forall e, dd_best_exact_value inp m = Some e -> (e < o)%Z) ->
+    exists sp, In sp (drain_cutset inp m) /\
+      oadd (sp_value sp) (H pb (sp_depth sp) (sp_state sp)) = Some o /\ (o <= sp_ub sp)%Z.
+  Proof.
+    intros Hc Ht Hnex Hv Hlb Hbe.
+    destruct (pooled_twin _ _ _ _ _ _ Hc) as (mc & Hcc & E1 & _ & E3 & _ & _ & E6).
+    rewrite E1 in Hnex. rewrite E3 in Hbe. rewrite E6.
+    exact (S4_cutset_covers_isize st_eqb st_eqb_spec (to_fc inp) (or_intror eq_refl) Hnocache Hnodom Hnocut Hwidth Hrd
+             nv_static nv_some nv_none cov cov_refl cov_sim merge_cov rub_adm cost_isize relax_isize relax_ge_isize
+             B HB Hguard tb tb2 c ds polls mc o Hcc Ht Hnex Hv Hlb Hbe).
+  Qed.
+End DiagramPooled.
+
+(* ================================================================== corollary: C01 for the pooled sequential solver *)
+Section SolverPooled.
+  Context {St : Type}.
+  Variable st_eqb : St -> St -> bool.
+  Hypothesis st_eqb_spec : forall a b, st_eqb a b = true <-> a = b.
+  Variable cfg : @sconfig St.
+  Local Notation pb := (sc_problem cfg).
+  Local Notation N := (nb_vars (sc_problem cfg)).
+  Hypothesis cfg_pooled : sc_flavour cfg = Pooled.
+  Hypothesis cfg_imp : forall x s, is_impacted_by pb x s = true.
+  Hypothesis cfg_nocache : sc_use_cache cfg = false.
+  Hypothesis cfg_nodom : sc_domrule cfg = None.
+  Hypothesis cfg_nodup : sc_nodup cfg = false.
+  Hypothesis cfg_width : 1 <= sc_width cfg.
+  Hypothesis nv_static : forall k l1 l2, next_variable pb k l1 = next_variable pb k l2.
+  Hypothesis nv_some : forall k l, k < N -> exists x, next_variable pb k l = Some x.
+  Hypothesis nv_none : forall k l, N <= k -> next_variable pb k l = None.
+  Hypothesis Hwf : wf_relaxation cfg.
+  Variable D : nat.
+  Hypothesis dom_bound : forall x s, length (domain pb x s) <= D.
+  Variable B : Z.
+  Hypothesis HB : (2 * B <= IMAX)%Z.
+  Hypothesis guard0 : forall ds s' v', frun pb 0 (init_state pb) (init_value pb) ds = Some (s', v') -> (- B <= v' <= B)%Z.
+  Hypothesis cfg_nocut : sc_cutoff cfg = 0.
+
+  Theorem C01_sequential_optimal_pooled :
+    exists f0, forall fuel, f0 <= fuel ->
+      let r := maximize st_eqb cfg fuel None in
+      r_crash r = false /\ r_outoffuel r = false /\ r_exact r = true /\ r_value r = opt_enum pb /\
+      (forall v, opt_enum pb = Some v ->
+         r_lb r = v /\ r_ub r = v /\
+         exists sol, r_sol r = Some (sort_by dec_var_cmp sol) /\ MddProgress.feasible pb sol v) /\
+      (opt_enum pb = None -> r_sol r = None /\ r_lb r = IMIN).
+  Proof.
+    destruct (C01_sequential_optimal st_eqb st_eqb_spec (cfg_fc cfg) (or_intror eq_refl) cfg_nocache cfg_nodom cfg_nodup
+                cfg_width nv_static nv_some nv_none Hwf D dom_bound B HB guard0 cfg_nocut) as [f0 Hf].
+    exists f0. intros fuel Hfuel.
+    rewrite (maximize_pooled_eq st_eqb st_eqb_spec cfg cfg_pooled cfg_imp cfg_width cfg_nocache fuel None).
+    exact (Hf fuel Hfuel).
+  Qed.
+End SolverPooled.
+
+(* ================================================================== corollary: C03 / C04 for the pooled parallel solver *)
+Section ParPooled.
+  Context {St : Type}.
+  Variable st_eqb : St -> St -> bool.
+  Hypothesis st_eqb_spec : forall a b, st_eqb a b = true <-> a = b.
+  Variable cfg : @sconfig St.
+  Local Notation pb := (sc_problem cfg).
+  Local Notation N := (nb_vars (sc_problem cfg)).
+  Hypothesis cfg_pooled : sc_flavour cfg = Pooled.
+  Hypothesis cfg_imp : forall x s, is_impacted_by pb x s = true.
+  Hypothesis cfg_nocache : sc_use_cache cfg = false.
+  Hypothesis cfg_nodom : sc_domrule cfg = None.
+  Hypothesis cfg_nodup : sc_nodup cfg = false.
+  Hypothesis cfg_width : 1 <= sc_width cfg.
+  Hypothesis nv_static : forall k l1 l2, next_variable pb k l1 = next_variable pb k l2.
+  Hypothesis nv_some : forall k l, k < N -> exists x, next_variable pb k l = Some x.
+  Hypothesis nv_none : forall k l, N <= k -> next_variable pb k l = None.
+  Hypothesis Hwf : wf_relaxation cfg.
+  Variable D : nat.
+  Hypothesis dom_bound : forall x s, length (domain pb x s) <= D.
+  Variable B : Z.
+  Hypothesis HB : (2 * B <= IMAX)%Z.
+  Hypothesis guard0 : forall ds s' v', frun pb 0 (init_state pb) (init_value pb) ds = Some (s', v') -> (- B <= v' <= B)%Z.
+  Hypothesis cfg_nocut : sc_cutoff cfg = 0.
+
+  Theorem C03_parallel_optimal_pooled : forall T primal fuel sched,
+    1 <= T -> ParProofs.primal_okP (sfeasible pb) primal -> ParProofs.fuelP cfg (Kbound cfg D) T <= fuel ->
+    let r := Par.par_maximize st_eqb cfg fuel T T primal sched in
+    Par.pr_end r = Par.PFinished /\
+    Par.pr_crash r = false /\ Par.pr_exact r = true /\ Par.pr_value r = opt_enum pb /\
+    (forall v, opt_enum pb = Some v ->
+       Par.pr_lb r = v /\ Par.pr_ub r = v /\
+       exists sol, Par.pr_sol r = Some (sort_by dec_var_cmp sol) /\ sfeasible pb sol v /\ MddProgress.feasible pb sol v) /\
+    (opt_enum pb = None -> Par.pr_sol r = None /\ Par.pr_lb r = IMIN).
+  Proof.
+    intros T primal fuel sched HT Hp Hf.
+    rewrite (par_maximize_pooled_eq st_eqb st_eqb_spec cfg cfg_pooled cfg_imp cfg_width cfg_nocache fuel T T primal sched).
+    exact (C03_parallel_optimal st_eqb st_eqb_spec (cfg_fc cfg) (or_intror eq_refl) cfg_nocache cfg_nodom cfg_nodup
+             cfg_width nv_static nv_some nv_none Hwf D dom_bound B HB guard0 cfg_nocut T primal fuel sched HT Hp Hf).
+  Qed.
+End ParPooled.
+
+(* ================================================================== non-vacuity *)
+(* all observations of a compilation result, as one tuple (for evaluation) *)
+Definition obs_tuple {St} (i : @cinput St) (r : @mdd St * outcome) :=
+  (snd r, m_crash (fst r), m_polls (fst r), m_cache (fst r), m_dom (fst r), m_log (fst r),
+   (dd_is_exact (fst r), dd_best_value i (fst r), dd_best_exact_value i (fst r), dd_best_solution i (fst r),
+    dd_best_exact_solution i (fst r), drain_cutset i (fst r)),
+   argmax_candidates i (fst r) (m_next (fst r)),
+   argmax_candidates i (fst r) (filter (fun id => fl_is_exact (n_flags (get_node i (fst r) id))) (m_next (fst r)))).
+
+(* ---- (a) MddStruct2.kp_pb: binary counter, every state impacted by every variable; Relaxed, width 1 *)
+Definition kp_run (f : flavour) (ct : comptype) (w : nat) :=
+  compile Z.eqb (kp_inp f ct w) 0 0 (init_cache 3) (init_dstore 3) 0.
+
+Example kp_all_impacted : all_impacted (kp_inp Pooled Relaxed 1).
+Proof. intros x s. reflexivity. Qed.
+
+Example kp_to_fc ct w : to_fc (kp_inp Pooled ct w) = kp_inp CleanFC ct w.
+Proof. reflexivity. Qed.
+
+(* by the theorem ... *)
+Example kp_pooled_is_frontier :
+  obs_eq (kp_inp Pooled Relaxed 1) (to_fc (kp_inp Pooled Relaxed 1))
+    (compile Z.eqb (kp_inp Pooled Relaxed 1) 0 0 (init_cache 3) (init_dstore 3) 0)
+    (compile Z.eqb (to_fc (kp_inp Pooled Relaxed 1)) 0 0 (init_cache 3) (init_dstore 3) 0).
+Proof.
+  refine (pooled_is_frontier Z.eqb Z.eqb_eq (kp_inp Pooled Relaxed 1) eq_refl kp_all_impacted (le_n 1) 0 0 _ _ 0 _).
+  vm_compute. reflexivity.
+Qed.
+
+(* ... and by evaluation: equal observations (log included), and they are not trivial: the diagram is not
+   exact, its best value is 3, its cut-set has two nodes *)
+Example kp_obs_computed :
+  obs_tuple (kp_inp Pooled Relaxed 1) (kp_run Pooled Relaxed 1) = obs_tuple (kp_inp CleanFC Relaxed 1) (kp_run CleanFC Relaxed 1) /\
+  dd_is_exact (fst (kp_run Pooled Relaxed 1)) = false /\
+  dd_best_value (kp_inp Pooled Relaxed 1) (fst (kp_run Pooled Relaxed 1)) = Some 3%Z /\
+  length (drain_cutset (kp_inp Pooled Relaxed 1) (fst (kp_run Pooled Relaxed 1))) = 2 /\
+  length (m_log (fst (kp_run Pooled Relaxed 1))) = 45.
+Proof. vm_compute. repeat split; reflexivity. Qed.
+
+Example kp_obs_computed_other : forall ct w, In ct [Exact; Restricted; Relaxed] -> In w [1; 2; 3] ->
+  obs_tuple (kp_inp Pooled ct w) (kp_run Pooled ct w) = obs_tuple (kp_inp CleanFC ct w) (kp_run CleanFC ct w).
+Proof.
+  intros ct w Hct Hw.
+  destruct Hct as [<-|[<-|[<-|[]]]]; destruct Hw as [<-|[<-|[<-|[]]]]; vm_compute; reflexivity.
+Qed.
+
+(* ---- (b) a 4-item knapsack (capacity 5, weights 2 3 4 1, profits 3 4 5 2): state = remaining capacity, every state
+   declared impacted by every variable; the pooled sequential solver (width 1) explores 4 sub-problems, compiles 7
+   diagrams and returns the optimum 7; it is the frontier solver *)
+Definition kq_w (x : nat) : Z := nth x [2; 3; 4; 1]%Z 0%Z.
+Definition kq_p (x : nat) : Z := nth x [3; 4; 5; 2]%Z 0%Z.
+Definition kq_pb : problem Z := {|
+  nb_vars := 4; init_state := 5%Z; init_value := 0%Z;
+  transition := fun s d => (s - d_val d * kq_w (d_var d))%Z;
+  transition_cost := fun _ _ d => (d_val d * kq_p (d_var d))%Z;
+  next_variable := fun depth _ => if Nat.ltb depth 4 then Some depth else None;
+  domain := fun x s => if (kq_w x <=? s)%Z then [1; 0]%Z else [0%Z];
+  is_impacted_by := fun _ _ => true |}.
+Definition kq_rlx : relaxation Z := {|
+  merge := fun l => fold_right Z.max 0%Z l;
+  relax := fun _ _ _ _ c => c;
+  fast_upper_bound := fun _ => 100%Z |}.
+Definition kq_cfg (f : flavour) (w : nat) (cache : bool) : @sconfig Z := {|
+  sc_flavour := f; sc_problem := kq_pb; sc_relax := kq_rlx; sc_ranking := Zcmp;
+  sc_domcmp := fun a va b vb => cmp_then (Zcmp va vb) (Zcmp a b); sc_domrule := None; sc_width := w;
+  sc_use_cache := cache; sc_nodup := false; sc_cutoff := 0 |}.
+
+Example kq_pooled_solver_optimal :
+  let r := maximize Z.eqb (kq_cfg Pooled 1 false) 100 None in
+  r_value r = opt_enum kq_pb /\ r_value r = Some 7%Z /\ r_exact r = true /\ r_crash r = false /\ r_outoffuel r = false /\
+  r_explored r = 4 /\ r_compiles r = 7 /\
+  r_sol r = Some [{| d_var := 0; d_val := 1 |}; {| d_var := 1; d_val := 1 |}; {| d_var := 2; d_val := 0 |}; {| d_var := 3; d_val := 0 |}]%Z.
+Proof. vm_compute. repeat split; reflexivity. Qed.
+
+(* by the theorem (no cache) ... *)
+Example kq_pooled_solver_is_frontier fuel :
+  maximize Z.eqb (kq_cfg Pooled 1 false) fuel None = maximize Z.eqb (kq_cfg CleanFC 1 false) fuel None.
+Proof.
+  exact (maximize_pooled_eq Z.eqb Z.eqb_eq (kq_cfg Pooled 1 false) eq_refl (fun _ _ => eq_refl) (le_n 1) eq_refl fuel None).
+Qed.
+(* ... and by evaluation, with the cache too (no dead end at the bottom occurs in these runs) *)
+Example kq_pooled_solver_is_frontier_cache :
+  maximize Z.eqb (kq_cfg Pooled 1 true) 100 None = maximize Z.eqb (kq_cfg CleanFC 1 true) 100 None /\
+  maximize Z.eqb (kq_cfg Pooled 2 true) 100 None = maximize Z.eqb (kq_cfg CleanFC 2 true) 100 None /\
+  r_value (maximize Z.eqb (kq_cfg Pooled 2 true) 100 None) = Some 7%Z.
+Proof. vm_compute. repeat split; reflexivity. Qed.
+
+(* the parallel protocol model, 2 workers, some interleaving: same result record (trace included) as the frontier
+   solver, optimum 7 *)
+Example kq_pooled_par_solver :
+  let r := Par.par_maximize Z.eqb (kq_cfg Pooled 1 false) 400 2 2 None [1; 0; 1; 1; 0; 0; 1; 0; 1; 1; 1; 0] in
+  r = Par.par_maximize Z.eqb (kq_cfg CleanFC 1 false) 400 2 2 None [1; 0; 1; 1; 0; 0; 1; 0; 1; 1; 1; 0] /\
+  Par.pr_end r = Par.PFinished /\ Par.pr_value r = Some 7%Z /\ Par.pr_exact r = true /\ Par.pr_crash r = false.
+Proof. vm_compute. repeat split; reflexivity. Qed.
+Example kq_pooled_par_solver_is_frontier fuel T sched :
+  Par.par_maximize Z.eqb (kq_cfg Pooled 1 false) fuel T T None sched =
+  Par.par_maximize Z.eqb (kq_cfg CleanFC 1 false) fuel T T None sched.
+Proof.
+  exact (par_maximize_pooled_eq Z.eqb Z.eqb_eq (kq_cfg Pooled 1 false) eq_refl (fun _ _ => eq_refl) (le_n 1) eq_refl fuel T T None sched).
+Qed.
+
+(* ---- (c) the premise all_impacted cannot be dropped: MddStruct2.kp_pb' (4 variables, variable 1 impacts nothing):
+   the pooled diagram carries the pool over variable 1 (long arcs): one decision less, another best value, cut-set
+   nodes of another depth *)
+Definition kp_run' (f : flavour) := compile Z.eqb (kp_inp' f 1) 0 0 (init_cache 4) (init_dstore 4) 0.
+Example kp_premise_needed_obs :
+  dd_best_value (kp_inp' Pooled 1) (fst (kp_run' Pooled)) = Some 3%Z /\
+  dd_best_value (kp_inp' CleanFC 1) (fst (kp_run' CleanFC)) = Some 4%Z /\
+  map (@sp_depth Z) (drain_cutset (kp_inp' Pooled 1) (fst (kp_run' Pooled))) = [2; 2] /\
+  map (@sp_depth Z) (drain_cutset (kp_inp' CleanFC 1) (fst (kp_run' CleanFC))) = [1; 1] /\
+  ~ obs_core_eq (kp_inp' Pooled 1) (kp_inp' CleanFC 1) (kp_run' Pooled) (kp_run' CleanFC).
+Proof.
+  assert (H1 : dd_best_value (kp_inp' Pooled 1) (fst (kp_run' Pooled)) = Some 3%Z) by (vm_compute; reflexivity).
+  assert (H2 : dd_best_value (kp_inp' CleanFC 1) (fst (kp_run' CleanFC)) = Some 4%Z) by (vm_compute; reflexivity).
+  split; [exact H1|]. split; [exact H2|]. split; [vm_compute; reflexivity|]. split; [vm_compute; reflexivity|].
+  intros [_ _ _ _ _ _ Hv _ _ _ _].
+  assert (Hc : snd (kp_run' CleanFC) = Compiled) by (vm_compute; reflexivity).
+  specialize (Hv Hc). rewrite H1, H2 in Hv. discriminate Hv.
+Qed.
+
+(* ---- (d) FINDING: the dead end at the bottom.  Binary counter on two variables, nothing can be decided for the third
+   (empty domains), width 1, best_lb 0: the third layer is squashed, its merged node has no child, next_variable answers
+   None on the empty layer.  pooled.rs records the empty layer and initialises the local bounds from it (nothing), clean.rs
+   does not record it and initialises them from the last NON-empty layer: the thresholds of the two cut-set nodes and of
+   the root differ (IMAX, IMAX, IMAX - 1 against 0, 1, 0), hence the cache left to the next compilation and the call log
+   differ.  Every other observation coincides (pooled_is_frontier_core). *)
+Definition de_pb : problem Z := {|
+  nb_vars := 3; init_state := 0%Z; init_value := 0%Z;
+  transition := fun s d => (2 * s + d_val d)%Z;
+  transition_cost := fun _ _ d => d_val d;
+  next_variable := fun depth _ => if Nat.ltb depth 3 then Some depth else None;
+  domain := fun x _ => if Nat.ltb x 2 then [0; 1]%Z else [];
+  is_impacted_by := fun _ _ => true |}.
+Definition de_inp (f : flavour) (cache : bool) : @cinput Z := {|
+  ci_flavour := f; ci_type := Relaxed; ci_problem := de_pb; ci_relax := kp_rlx;
+  ci_ranking := Zcmp; ci_domcmp := fun a va b vb => cmp_then (Zcmp va vb) (Zcmp a b);
+  ci_width := 1;
+  ci_root := {| sp_state := 0%Z; sp_value := 0%Z; sp_path := []; sp_ub := IMAX; sp_depth := 0 |};
+  ci_best_lb := 0%Z; ci_use_cache := cache; ci_domrule := None; ci_cutoff := 0 |}.
+Definition de_run (f : flavour) (cache : bool) := compile Z.eqb (de_inp f cache) 0 0 (init_cache 3) (init_dstore 3) 0.
+
+Example dead_end_finding :
+  all_impacted (de_inp Pooled true) /\
+  dead_end_diff (de_inp CleanFC true) (de_run CleanFC true) = true /\
+  m_cache (fst (de_run Pooled true)) =
+    [[(0, {| th_value := IMAX - 1; th_explored := true |})];
+     [(0, {| th_value := IMAX; th_explored := false |}); (1, {| th_value := IMAX; th_explored := false |})]; []; []]%Z /\
+  m_cache (fst (de_run CleanFC true)) =
+    [[(0, {| th_value := 0; th_explored := true |})];
+     [(0, {| th_value := 0; th_explored := false |}); (1, {| th_value := 1; th_explored := false |})]; []; []]%Z /\
+  m_layers (fst (de_run Pooled true)) = [[0]; [1; 2]; [3; 4; 5; 6; 7]; []] /\
+  m_layers (fst (de_run CleanFC true)) = [[0]; [1; 2]; [3; 4; 5; 6; 7]] /\
+  firstn 3 (m_log (fst (de_run Pooled false))) =
+    [EvCacheUpd 0 0 (IMAX - 1) true; EvCacheUpd 1 1 IMAX false; EvCacheUpd 0 1 IMAX false]%Z /\
+  firstn 3 (m_log (fst (de_run CleanFC false))) =
+    [EvCacheUpd 0 0 0 true; EvCacheUpd 1 1 1 false; EvCacheUpd 0 1 0 false]%Z /\
+  ~ obs_eq (de_inp Pooled true) (de_inp CleanFC true) (de_run Pooled true) (de_run CleanFC true) /\
+  obs_core_eq (de_inp Pooled true) (to_fc (de_inp Pooled true))
+    (compile Z.eqb (de_inp Pooled true) 0 0 (init_cache 3) (init_dstore 3) 0)
+    (compile Z.eqb (to_fc (de_inp Pooled true)) 0 0 (init_cache 3) (init_dstore 3) 0).
+Proof.
+  split; [intros x s; reflexivity|].
+  split; [vm_compute; reflexivity|].
+  assert (C1 : m_cache (fst (de_run Pooled true)) =
+    [[(0, {| th_value := IMAX - 1; th_explored := true |})];
+     [(0, {| th_value := IMAX; th_explored := false |}); (1, {| th_value := IMAX; th_explored := false |})]; []; []]%Z)
+    by (vm_compute; reflexivity).
+  assert (C2 : m_cache (fst (de_run CleanFC true)) =
+    [[(0, {| th_value := 0; th_explored := true |})];
+     [(0, {| th_value := 0; th_explored := false |}); (1, {| th_value := 1; th_explored := false |})]; []; []]%Z)
+    by (vm_compute; reflexivity).
+  split; [exact C1|]. split; [exact C2|].
+  split; [vm_compute; reflexivity|]. split; [vm_compute; reflexivity|].
+  split; [vm_compute; reflexivity|]. split; [vm_compute; reflexivity|].
+  split.
+  - intros [_ _ Hc _]. rewrite C1, C2 in Hc. discriminate Hc.
+  - refine (pooled_is_frontier_core Z.eqb Z.eqb_eq (de_inp Pooled true) eq_refl (fun _ _ => eq_refl) (le_n 1) 0 0 _ _ 0).
+Qed.
+
+(* ================================================================== summary
+   to_fc inp            = inp with ci_flavour := CleanFC;   cfg_fc cfg = cfg with sc_flavour := CleanFC.
+   all_impacted inp     = forall x s, is_impacted_by (ci_problem inp) x s = true.
+
+   Premises of the equivalence: st_eqb decides equality, ci_flavour inp = Pooled, all_impacted inp, 1 <= ci_width inp.
+   No premise on the variable order, on the root depth, on the cache, on the dominance rule, on the cutoff.
+   (1 <= width: with width 0 a Relaxed squash "crashes" without creating a merged node; then the clean flavour computes
+   local bounds although the frontier cut-set is empty and the two node tables differ.)
+
+   pooled_is_frontier_core     obs_core_eq: outcome, m_polls, m_dom, the two tie-break candidate lists
+                               (argmax_candidates over m_next, resp. over its exact members) always; for a Compiled
+                               outcome dd_is_exact, dd_best_value, dd_best_exact_value, dd_best_solution,
+                               dd_best_exact_solution, drain_cutset (equal LISTS, same order).
+   pooled_is_frontier          obs_eq = obs_core_eq + m_crash + m_cache + m_log (equal lists), provided
+                               dead_end_diff (to_fc inp) (frontier result) = false.
+   pooled_is_frontier_nocache  ci_use_cache inp = false: m_crash and m_cache coincide whatever happens.
+   pooled_is_frontier_not_relaxed / pooled_is_frontier_live: obs_eq for Restricted and Exact compilations, and whenever the
+                               compilation ends with a non-empty last layer (some terminal node exists).
+   FINDING (dead_end_finding, by vm_compute): dead_end_diff = Relaxed /\ some layer was squashed /\ the last
+   next_variable call answered None while the next layer was empty.  Then pooled.rs has recorded the empty layer and
+   initialises the local bounds from it (nothing is marked), clean.rs initialises them from the last non-empty layer;
+   the thresholds differ, so do the cache updates (m_cache, EvCacheUpd events of m_log).  Everything else coincides
+   (both diagrams have no terminal node: no best value, empty drained cut-set).
+   Not observed (internal): m_nodes / m_edges / m_layers / m_cutset / m_best .. themselves.  Outside the dead end they
+   coincide too (the proof shows  pooled diagram = retag frontier_diagram None is_exact 0 layers, i.e. equality of all
+   fields but m_lel, m_layer_end); the recorded layer LISTS differ by the trailing [] in the dead end only (Viz).
+   For a CutoffOccurred / OutOfFuel outcome m_is_exact differs (pooled has already cleared it at the first squash, clean
+   derives it from m_lel in _finalize): dd_is_exact is compared for Compiled outcomes only, as the solvers read it.
+
+   Method: retag m lel ex le ly replaces the four fields in which the flavours differ; every function of the layer
+   loop and of _finalize other than note_squash / the two _move_to_next_layer / _finalize_layers / _finalize_exact /
+   _finalize_cutset / the go-condition of _compute_local_bounds commutes with retag (the lemmas named r_xxx), and is the same
+   function for both flavours by conversion.  loop_sim: simulation through the layer loop (invariant CInv on the clean
+   side: MddExact's Dinv / Xinv / next_depth + the open layer is the index range [m_layer_end, |nodes|)).
+   fin_tail_sim: through _finalize; the go-conditions of _compute_local_bounds agree because a squashed Relaxed
+   diagram has a non-empty frontier cut-set (K_loop, relax_body_merged, CutRdy_nonempty: the merged node of the first
+   squash is inexact, recorded in a layer, and has an inbound edge from an exact node; no node carries the cut-set
+   flag before _finalize_cutset: NoCut).
+
+   Corollaries (premises of the clean originals, with Pooled + all_impacted instead of the clean flavour):
+     C07_restricted_value_is_feasible_pooled, C07_restricted_lower_bound_pooled, C07_best_exact_value_is_feasible_pooled,
+     S1_relaxed_upper_bound_isize_pooled, S2_exact_truthful_isize_pooled, S2_exact_mode_isize_pooled,
+     S3_cutset_ub_isize_pooled, S4_cutset_covers_isize_pooled,
+     maximize_pooled_eq (sc_use_cache = false: Solver.maximize with flavour Pooled = with flavour CleanFC, equal sresult
+     records), C01_sequential_optimal_pooled;
+     par_maximize_pooled_eq (the same for the parallel protocol model Par.par_maximize, every schedule, every thread
+     count: equal presult records, trace included; proof: simulation [prel] = same shared state, worker tables related
+     pointwise, a worker holding a compiled diagram is related to a worker holding a diagram with the same core
+     observations), C03_parallel_optimal_pooled (termination + optimality, i.e. C03 + C04).
+   Non-vacuity: kp_pooled_is_frontier / kp_obs_computed (MddStruct2.kp_pb, Relaxed width 1), kq_pooled_solver_optimal
+   (a 4-item knapsack: 4 explored sub-problems, 7 compilations, optimum 7), kp_premise_needed_obs (without
+   all_impacted the flavours differ: best value 3 against 4). *)
+Check @to_fc.
+Check @all_impacted.
+Check @obs_core_eq.
+Check @obs_eq.
+Check @dead_end_diff.
 Check @pooled_is_frontier_core.
 Check @pooled_is_frontier.
 Check @pooled_is_frontier_nocache.
+Check @pooled_is_frontier_not_relaxed.
+Check @pooled_is_frontier_live.
+Check @maximize_pooled_eq.
+Check @C01_sequential_optimal_pooled.
+Check @par_maximize_pooled_eq.
+Check @C03_parallel_optimal_pooled.
+Check @S1_relaxed_upper_bound_isize_pooled.
+Check @S2_exact_truthful_isize_pooled.
+Check @S2_exact_mode_isize_pooled.
+Check @S3_cutset_ub_isize_pooled.
+Check @S4_cutset_covers_isize_pooled.
+Check @C07_restricted_value_is_feasible_pooled.
+Check @C07_restricted_lower_bound_pooled.
+Check @C07_best_exact_value_is_feasible_pooled.
 Print Assumptions pooled_is_frontier_core.
 Print Assumptions pooled_is_frontier.
 Print Assumptions pooled_is_frontier_nocache.
+Print Assumptions pooled_is_frontier_not_relaxed.
+Print Assumptions pooled_is_frontier_live.
+Print Assumptions maximize_pooled_eq.
+Print Assumptions C01_sequential_optimal_pooled.
+Print Assumptions par_maximize_pooled_eq.
+Print Assumptions C03_parallel_optimal_pooled.
+Print Assumptions kq_pooled_par_solver.
+Print Assumptions kq_pooled_par_solver_is_frontier.
+Print Assumptions S1_relaxed_upper_bound_isize_pooled.
+Print Assumptions S2_exact_truthful_isize_pooled.
+Print Assumptions S2_exact_mode_isize_pooled.
+Print Assumptions S3_cutset_ub_isize_pooled.
+Print Assumptions S4_cutset_covers_isize_pooled.
+Print Assumptions C07_restricted_value_is_feasible_pooled.
+Print Assumptions C07_restricted_lower_bound_pooled.
+Print Assumptions C07_best_exact_value_is_feasible_pooled.
+Print Assumptions kp_pooled_is_frontier.
+Print Assumptions kp_obs_computed.
+Print Assumptions kp_obs_computed_other.
+Print Assumptions kq_pooled_solver_optimal.
+Print Assumptions kq_pooled_solver_is_frontier.
+Print Assumptions kq_pooled_solver_is_frontier_cache.
+Print Assumptions kp_premise_needed_obs.
+Print Assumptions dead_end_finding.
